@@ -134,7 +134,7 @@ pub fn run(ctx: &Ctx) -> i32 {
     let nproc = ctx.tier.pick(4u64, 8u64);
     let nseeds = ctx.tier.pick(16u64, 96u64);
     let exe = std::env::current_exe().unwrap();
-    let shim = format!("{}/target/seedshim.so", VERIF_DIR);
+    let shim = format!("{}/target/seedshim.so", verif_dir());
     let shim_present = std::path::Path::new(&shim).exists();
     if !shim_present {
         col.machinery(format!("{} is missing (run ./setup.sh)", shim));
